@@ -5,8 +5,10 @@ import (
 	"fmt"
 	"io"
 	"net"
+	"os"
 	"sync"
 	"sync/atomic"
+	"syscall"
 	"time"
 
 	"github.com/cybergarage/go-redis/redis"
@@ -266,6 +268,18 @@ func c14run(idx int) run.Result {
 			time.Sleep(50 * time.Microsecond)
 		}
 	}()
+	// in rounds with both ports and no lifecycle calls: for a moment the process has no free descriptor while a
+	// client waits in the listen queue of each port, so that BOTH accept loops run into a failing Accept (and
+	// through whatever they do about it) at the same time
+	var squeezed int64
+	if tlsPort != 0 && !lifecycle {
+		wg.Add(1)
+		go func() {
+			defer wg.Done()
+			time.Sleep(3 * time.Millisecond)
+			atomic.StoreInt64(&squeezed, int64(squeezeDescriptors([]int{port, tlsPort}, 130*time.Millisecond)))
+		}()
+	}
 	// lifecycle calls while clients are active
 	var lcErrs []string
 	var lcMu sync.Mutex
@@ -348,10 +362,60 @@ func c14run(idx int) run.Result {
 	res.Count("handler_primitive_calls", st.Calls)
 	res.Count("clients", int64(nClients))
 	res.Count("lifecycle_errors", int64(len(lcErrs)))
+	res.Count("accept_failures_provoked_on_both_ports", atomic.LoadInt64(&squeezed))
 	if idx%3 == 0 {
 		res.Sample = map[string]any{"clients": nClients, "lifecycle_calls": lifecycle, "tcp_exchanges": exchanges, "dials": dials}
 	}
 	return res
+}
+
+// squeezeDescriptors takes every free descriptor of the process, gives one back per port to a client whose
+// connection the kernel completes (it waits in the listen queue; the server's Accept has no descriptor for it and
+// fails with EMFILE), holds that state and restores everything. Returns the number of ports squeezed.
+func squeezeDescriptors(ports []int, hold time.Duration) int {
+	var lim syscall.Rlimit
+	if err := syscall.Getrlimit(syscall.RLIMIT_NOFILE, &lim); err != nil {
+		return 0
+	}
+	es, _ := os.ReadDir("/proc/self/fd")
+	low := lim
+	low.Cur = uint64(len(es) + 120)
+	if low.Cur > lim.Max {
+		return 0
+	}
+	var fillers []*os.File
+	var waiting []net.Conn
+	defer func() {
+		for _, f := range fillers {
+			f.Close()
+		}
+		syscall.Setrlimit(syscall.RLIMIT_NOFILE, &lim)
+		for _, c := range waiting {
+			c.Close()
+		}
+	}()
+	if err := syscall.Setrlimit(syscall.RLIMIT_NOFILE, &low); err != nil {
+		return 0
+	}
+	for len(fillers) < 4096 {
+		f, err := os.Open("/dev/null")
+		if err != nil {
+			break
+		}
+		fillers = append(fillers, f)
+	}
+	if len(fillers) < len(ports) {
+		return 0
+	}
+	for _, p := range ports {
+		fillers[len(fillers)-1].Close()
+		fillers = fillers[:len(fillers)-1]
+		if c, err := net.DialTimeout("tcp", fmt.Sprintf("127.0.0.1:%d", p), time.Second); err == nil {
+			waiting = append(waiting, c)
+		}
+	}
+	time.Sleep(hold)
+	return len(waiting)
 }
 
 var _ = redis.NewServer
